@@ -30,11 +30,16 @@ def run_demo():
     res["_build"] = o.strip()
     rs = [f for f in os.listdir(demo) if f.endswith(".rs")]
     for f in sorted(rs):
-        os.makedirs(f"{wt}/bytecode/tests", exist_ok=True)
-        shutil.copy(f"{demo}/{f}", f"{wt}/bytecode/tests/{f}")
-        rc, o = sh(f"cargo test --offline -p aelys-bytecode --test {f[:-3]} 2>&1 | grep -E 'test result|panicked|FAILED|failed' | head -20")
+        # integration tests of the umbrella crate `aelys` can use every workspace crate
+        src = open(f"{demo}/{f}").read()
+        crate, tdir = ("aelys", "aelys/tests")
+        if "aelys_" in src and not os.path.isdir(f"{wt}/aelys/tests"):
+            crate, tdir = ("aelys-bytecode", "bytecode/tests")
+        os.makedirs(f"{wt}/{tdir}", exist_ok=True)
+        shutil.copy(f"{demo}/{f}", f"{wt}/{tdir}/{f}")
+        rc, o = sh(f"cargo test --offline -p {crate} --test {f[:-3]} 2>&1 | grep -E 'test result|panicked|FAILED|failed|error' | head -20")
         res[f] = o.strip()
-        os.remove(f"{wt}/bytecode/tests/{f}")
+        os.remove(f"{wt}/{tdir}/{f}")
     for f in sorted(os.listdir(demo)):
         if f.endswith(".aelys"):
             for lvl in (0, 1, 2, 3):
@@ -44,7 +49,7 @@ def run_demo():
 
 
 meta = {"property": prop, "k": int(k), "worktree_commit": sh("git rev-parse --short HEAD")[1].strip(), "ran": []}
-sh("git checkout -- . && git clean -fdq bytecode/tests 2>/dev/null; true")
+sh("git checkout -- . && git clean -fdq bytecode/tests aelys/tests 2>/dev/null; true")
 base = run_demo()
 rc, o = sh(f"git apply --check {diff} && git apply {diff}")
 meta["applies"] = rc == 0
@@ -77,7 +82,7 @@ for c in checks:
     meta["ran"].append(f"VERIF_REPO={wt} ./check {c}")
 meta["check_verdicts"] = verdicts
 meta["caught"] = any(v["exit"] == 1 for v in verdicts.values())
-sh("git checkout -- . && git clean -fdq bytecode/tests 2>/dev/null; true")
+sh("git checkout -- . && git clean -fdq bytecode/tests aelys/tests 2>/dev/null; true")
 os.makedirs(out, exist_ok=True)
 shutil.copy(diff, f"{out}/patch.diff")
 if os.path.exists(f"{out}/demo"):
